@@ -745,6 +745,12 @@ func (s *Summarizer) callForm(call *ssa.Call, env termEnv) *Form {
 			return atom(&LAtom{Kind: kind, Str: k, Term: t, Desc: fmt.Sprintf("%s(%s,%q)", strings.TrimPrefix(name, "strings."), termStr(t), k)})
 		}
 	}
+	if name == "unicode/utf8.ValidString" && len(c.Args) == 1 {
+		if t, ok := s.termOf(c.Args[0], env); ok {
+			inv := relang.NewSet(relang.INV, relang.INV)
+			return fNot(atom(&LAtom{Kind: "containsAny", Set: inv, Term: t, Desc: fmt.Sprintf("HasInvalidUTF8(%s)", termStr(t))}))
+		}
+	}
 	if name == "strings.ContainsFunc" && len(c.Args) == 2 {
 		t, ok := s.termOf(c.Args[0], env)
 		set, okp := predicateSet(c.Args[1], true)
